@@ -17,6 +17,8 @@ import (
 	"fmt"
 	"image"
 	"image/color"
+	"runtime"
+	"runtime/debug"
 
 	webp "github.com/deepteams/webp"
 
@@ -94,12 +96,14 @@ const siteUseParallel = 2 // lossy.EncodeFrame.useParallel
 type c06Case struct {
 	W, H, Kind int
 	Path       string // "serial" | "parallel"
+	Group      string // extra tag prefix of the generator family
+	NoModel    bool   // Go-side evaluation only (no specification-decoder case)
 	Opts       webp.EncoderOptions
 }
 
 func (e *c06Case) tag() string {
 	o := e.Opts
-	return fmt.Sprintf("%s:%dx%d:k%d:q%g:m%d:s%d:p%d:f%d.%d.%d:sns%d:pre%d:pass%d:ts%d:psnr%g:qmin%d:qmax%d:sharp%v", e.Path, e.W, e.H, e.Kind,
+	return fmt.Sprintf("%s%s:%dx%d:k%d:q%g:m%d:s%d:p%d:f%d.%d.%d:sns%d:pre%d:pass%d:ts%d:psnr%g:qmin%d:qmax%d:sharp%v", e.Group, e.Path, e.W, e.H, e.Kind,
 		o.Quality, o.Method, o.Segments, o.Partitions, o.FilterStrength, o.FilterSharpness, o.FilterType, o.SNSStrength, o.Preset, o.Pass,
 		o.TargetSize, o.TargetPSNR, o.QMin, o.QMax, o.UseSharpYUV)
 }
@@ -134,7 +138,9 @@ func run(c *Ctx, e *c06Case, im *image.NRGBA) {
 	c.Nontrivial(tag)
 	c.Sample(tag)
 	// correspondence + specification: the model reconstructs the bytes
-	c.Case("recon "+tag+" "+hex.EncodeToString(bs), fmt.Sprintf("ok %d %d %s.%s.%s", w, h, digest(ry), digest(ru), digest(rv)))
+	if !e.NoModel {
+		c.Case("recon "+tag+" "+hex.EncodeToString(bs), fmt.Sprintf("ok %d %d %s.%s.%s", w, h, digest(ry), digest(ru), digest(rv)))
+	}
 	if w != e.W || h != e.H {
 		c.Violate("dims", fmt.Sprintf("reconstruction %dx%d, source %dx%d", w, h, e.W, e.H), replay)
 	}
@@ -187,7 +193,7 @@ func main() {
 		c.D.Rule = "encoder reconstruction planes (hook) = specification decoder's pre-filter planes of the emitted bytes = Go decoder's pre-filter planes; = webp.Decode planes at FilterStrength 0; dimensions = source dimensions; serial and parallel encoder paths"
 		rng := c.Rng.Fork()
 		sizes := [][2]int{{1, 1}, {15, 17}, {16, 16}, {33, 65}, {64, 64}, {17, 1}, {1, 33}, {48, 32}, {31, 31}, {64, 17}, {40, 80}, {72, 56}}
-		n := 150
+		n := 110
 		if c.Thorough() {
 			n = 1500
 			sizes = append(sizes, [2]int{128, 128}, [2]int{100, 130}, [2]int{255, 63}, [2]int{200, 90})
@@ -232,5 +238,88 @@ func main() {
 				run(c, &e2, im)
 			}
 		}
+		rateControlCases(c)
+		pooledPairCases(c)
 	})
+}
+
+// rateControlCases: TargetSize / TargetPSNR x Pass in {1,2,3,4,6,10}, several targets per picture
+// chosen around what the picture needs, so that the quantiser search converges early in some runs
+// and runs out of passes in others (serial frame loop, adjustQuantForTarget).
+func rateControlCases(c *Ctx) {
+	rng := c.Rng.Fork()
+	pics := 4
+	if c.Thorough() {
+		pics = 30
+	}
+	passes := []int{1, 2, 3, 4, 6, 10}
+	for pi := 0; pi < pics; pi++ {
+		r := rng.Fork()
+		w, h := r.Pick(48, 64, 33), r.Pick(48, 64, 40)
+		kind := r.Pick(1, 2, 4, 5)
+		im := genImage(r, w, h, kind)
+		// size of a plain quality-75 encode as the reference point for the targets
+		var ref bytes.Buffer
+		o0 := webp.DefaultOptions()
+		o0.Method = r.Pick(0, 2, 4)
+		if err := webp.Encode(&ref, im, o0); err != nil {
+			continue
+		}
+		base := ref.Len()
+		targets := []int{base / 3, base / 2, base * 3 / 4, base, base * 5 / 4, base * 2}
+		psnrs := []float32{28, 34, 38, 42}
+		k := 0
+		for _, ps := range passes {
+			for ti := 0; ti < 3; ti++ {
+				o := *o0
+				o.Pass = ps
+				o.Segments = 1 + r.Intn(4)
+				o.FilterStrength = r.Pick(0, 20, 60)
+				if (k+ti)%3 == 2 {
+					o.TargetPSNR = psnrs[(k+pi)%len(psnrs)]
+				} else {
+					o.TargetSize = targets[(k+ti+pi)%len(targets)]
+				}
+				k++
+				e := &c06Case{W: w, H: h, Kind: kind, Path: "serial", Group: "rate:", Opts: o}
+				c.Count(fmt.Sprintf("ratecontrol:pass%d", ps))
+				run(c, e, im)
+			}
+		}
+	}
+}
+
+// pooledPairCases: a wide picture and then a narrower one through the row-parallel encoder, back to
+// back on one goroutine with the garbage collector held off, so that the narrow encode receives the
+// pooled parallel state sized for the wide one. Textured content (4x4 modes with above-right
+// dependence in the last macroblock column), Method >= 3, at least 4 macroblock rows.
+func pooledPairCases(c *Ctx) {
+	rng := c.Rng.Fork()
+	pairs := [][2]int{{160, 49}, {160, 33}, {144, 65}, {128, 17}, {176, 81}, {96, 48}, {208, 97}, {160, 16}}
+	reps := 2
+	if c.Thorough() {
+		reps = 12
+	}
+	old := debug.SetGCPercent(-1)
+	defer debug.SetGCPercent(old)
+	runtime.LockOSThread()
+	defer runtime.UnlockOSThread()
+	for rep := 0; rep < reps; rep++ {
+		for _, pr := range pairs {
+			r := rng.Fork()
+			h := r.Pick(64, 80, 96)
+			kind := r.Pick(2, 5, 2)
+			o := webp.DefaultOptions()
+			o.Method = r.Pick(3, 4, 5, 6)
+			o.Quality = float32(r.Pick(50, 75, 90))
+			o.FilterStrength = r.Pick(0, 30)
+			wide := genImage(r, pr[0], h, kind)
+			narrow := genImage(r, pr[1], h, kind)
+			ew := &c06Case{W: pr[0], H: h, Kind: kind, Path: "parallel", Group: "pairwide:", Opts: *o, NoModel: true}
+			en := &c06Case{W: pr[1], H: h, Kind: kind, Path: "parallel", Group: "pairnarrow:", Opts: *o}
+			c.Count("pooled-pair")
+			run(c, ew, wide)
+			run(c, en, narrow)
+		}
+	}
 }
